@@ -1,5 +1,5 @@
 """C15 Concurrent calls always complete: acyclic lock-order graph over all paths, no blocking waits."""
-from .. import effects
+from .. import cfgutil, effects
 from ..core import Site, FN_TRAIT_CALLS
 from .base import Rule, site_construct, site_where, stable_path
 
@@ -102,6 +102,24 @@ def rules(ctx, tier):
                 "bounded channel at %s: send can block the committing thread" % site_where(s), site_where(s))
     # sends with a lock held are fine only on the unbounded channel (listed)
     r.ok("scan", None, "%d bodies reachable from the API scanned for join/recv/sync_channel/condvar/park/sleep" % len(reach))
+    # polling: `while other_thread_is_not_done() { yield_now() }` completes only if the other thread can get on - which it
+    # cannot while the waiter holds a lock it needs.  A yield / spin hint inside a loop with any lock (may-)held is a wait
+    # that nobody may be able to end
+    SPIN = ("std::thread::yield_now", "std::hint::spin_loop", "core::hint::spin_loop")
+    for b in prog.bodies.values():
+        if b.path not in reach:
+            continue
+        for s in b.calls():
+            if (s.path or "") not in SPIN:
+                continue
+            in_loop = s.bb in cfgutil.reach(b, s.term["t"]) if s.term.get("t") is not None else False
+            held = L.may_held_at(s)
+            if in_loop and held:
+                r.bad("spin-under-lock:%s" % s.path.split("::")[-1], b,
+                      "%s polls at %s while %s may be held: whoever has to make the condition true may be waiting for "
+                      "that lock" % (b.path, site_where(s), sorted(c_ for c_, _ in held)), site_where(s))
+            else:
+                r.ok("spin:%s" % s.path.split("::")[-1], b, "%s at %s with no lock held" % (s.path, site_where(s)))
     out.append(r.finish())
 
     r = Rule("R3", "guards do not escape, except the documented read view",
